@@ -47,6 +47,53 @@ TARGETS = [
     Target('extract_front_iov', CPP, r'ssize_t iovector_view::extract_front\(size_t bytes, iovector_view\* iov\)', rules=[
         (r'_this->do_extract_front\(bytes, \[&\].*\}\);', 'do_extract_front_iov(this, bytes, &ctx_);', 1),
         (r'iov->iovcnt = 0;', 'iov->iovcnt = 0; struct cbiov ctx_ = { iov, N };', 1)]),
+    Target('do_extract_back', CPP, r'ssize_t do_extract_back\(size_t bytes, const CB& cb\)', rules=[
+        (r'(?<![\w>.])empty\(\)', 'iovv_empty(this)', 1),
+        (r'auto& v = back\(\);', 'XB_TOP struct iovec *v = iovv_back(this);', 1),
+        (r'\bv\.', 'v->', 8),
+        (r'(?<![\w>.])pop_back\(\)', 'iovv_pop_back(this)', 2),
+        (r'(?<![\w>.])cb\(', 'CB(', 2),
+        (r'return bytes0 - bytes;', 'G_J = this->iovcnt; return bytes0 - bytes;', 1)],
+        marks={'count': 1, 0: dict(name='XB', frame=['bytes', 'this', 'ARRS', 'buf', 'ctx', 'OUTS', 'OBS_HITS', 'CUR_ELEM'],
+                                   effects=dict(VIEW_EFFECTS, **CB_EFFECTS), pure=PURE, ptr_targets={'v': ['ARRS']})}),
+    Target('cb_back_copy', CPP, r'\[&\]\(void\* ptr, size_t size\) __INLINE__', index=2, count=4, rules=[
+        (r'\bbuf\b', '(*buf)', 2), (r'\bmemcpy\(', 'memcpy_(', 1),
+        (r'\(char\*&\)(\(\*buf\)) -= (\w+);', r'\1 = (char*)\1 - \2;', 1)]),
+    Target('extract_back_copy', CPP, r'size_t iovector_view::extract_back\(size_t bytes, void\* buf\)', rules=[
+        (r'\(char\*&\)buf \+= bytes;', 'buf = (char*)buf + bytes;', 1),
+        (r'_this->do_extract_back\(bytes, \[&\].*\}\);', 'do_extract_back_copy(this, bytes, &buf);', 1)]),
+    Target('extract_front_continuous', HDR, r'void\* extract_front_continuous\(size_t bytes\)', index=0, count=2, rules=[
+        (r'auto& f = front\(\);', 'struct iovec *f = iovv_front(this);', 1), (r'\bf\.', 'f->', 5),
+        (r'(?<![\w>.])empty\(\)', 'iovv_empty(this)', 1), (r'(?<![\w>.])pop_front\(\)', 'iovv_pop_front(this)', 1),
+        (r'\(char\*&\)(f->iov_base) \+= (\w+);', r'\1 = (char*)\1 + \2;', 1)]),
+    Target('extract_back_continuous', HDR, r'void\* extract_back_continuous\(size_t bytes\)', index=0, count=2, rules=[
+        (r'auto& b = back\(\);', 'struct iovec *b = iovv_back(this);', 1), (r'\bb\.', 'b->', 5),
+        (r'(?<![\w>.])empty\(\)', 'iovv_empty(this)', 1), (r'(?<![\w>.])pop_back\(\)', 'iovv_pop_back(this)', 1)]),
+    # ---- iov_iterator and _copy_pipe_iov
+    Target('iovec_pluseq', CPP, r'inline void operator\+=\(iovec& v, size_t nbytes\)', rules=[
+        (r'\(char\*&\)v\.iov_base \+= nbytes;', 'v->iov_base = (char*)v->iov_base + nbytes;', 1), (r'\bv\.', 'v->', 1)]),
+    Target('it_ctor', CPP, r'iov_iterator\(iovector_view v\) : _iov\(v\.iov\), _v\(v\.iov\[0\]\), _iovcnt\(v\.iovcnt\)', rules=[
+        (r'^\{', '{ this->_iov = v.iov; this->_v = v.iov[0]; this->_iovcnt = v.iovcnt;', 1)]),
+    Target('it_empty', CPP, r'bool empty\(\) const (?=\{ return _iovcnt == 0; \})', rules=[fields_rule(['_iovcnt'])]),
+    Target('it_front', CPP, r'iovec front\(\) const (?=\{ return _v; \})', rules=[fields_rule(['_v'])]),
+    Target('it_pluseq', CPP, r'iov_iterator& operator \+= \(size_t n\)', rules=[
+        fields_rule(['_iovcnt', '_v', '_iov'], min_fires=6),
+        (r'this->_v \+= n;', 'iovec_advance(&this->_v, n);', 1),
+        (r'this->_v = \{\};', 'this->_v = (struct iovec){0, 0};', 1),
+        (r'return \*this;', 'return;', 1)]),
+    Target('min3', CPP, r'inline size_t min\(size_t a, size_t b, size_t c\)', rules=[(r'std::min', 'std_min', 2)]),
+    Target('copy_pipe', CPP, r'size_t _copy_pipe_iov\(T&& dest, P&& src, size_t size\)', rules=[
+        (r'!dest\.empty\(\)', '!D_EMPTY(dest)', 1), (r'!src\.empty\(\)', '!S_EMPTY(src)', 1),
+        (r'__auto_type df = dest\.front\(\), sf = src\.front\(\);', 'CP_TOP struct iovec df = D_FRONT(dest), sf = S_FRONT(src);', 1),
+        (r'(?<![\w.])min\(', 'min3(', 1),
+        (r'\bmemcpy\((.*?)\);', r'memcpy2_(\1, dest, src);', 1),
+        (r'dest \+= stepsize;', 'D_ADVANCE(dest, stepsize);', 1), (r'src \+= stepsize;', 'S_ADVANCE(src, stepsize);', 1)],
+        marks={'count': 1, 0: dict(name='CP', frame=['size', 'dest', 'src', 'OBS_HITS', 'CP_DONE'],
+               effects={'D_ADVANCE': ['dest'], 'S_ADVANCE': ['src'], 'memcpy2_': ['OBS_HITS'], 'DS_STEP': []},
+               pure=['D_EMPTY', 'S_EMPTY', 'D_FRONT', 'S_FRONT', 'min3'])}),
+    Target('memcpy_iov', CPP, r'size_t iovector_view::memcpy_iov\(iovector_view d, iovector_view s, size_t size\)', rules=[
+        (r'return _copy_pipe_iov\(iov_iterator\(d\), iov_iterator\(s\), size\);',
+         '{ struct iov_iterator di_, si_; iovit_ctor(&di_, d); iovit_ctor(&si_, s); return copy_pipe_iov_it_it(&di_, &si_, size); }', 1)]),
 ]
 
 UNITS = {'iov.c': 'iov.c.in'}
@@ -61,8 +108,14 @@ PROOFS = [
     Proof('extract_front/discard', 'iov.c', 'h_extract_front_discard', kind='L', min_obligations=10, **CV),
     Proof('extract_front/copy', 'iov.c', 'h_extract_front_copy', kind='L', min_obligations=10, **CV),
     Proof('extract_front/iov', 'iov.c', 'h_extract_front_iov', kind='L', min_obligations=10, **CV),
+    Proof('extract_back/discard', 'iov.c', 'h_extract_back_discard', kind='L', min_obligations=10, tier='thorough', **CV),
+    # extract_back(bytes, buf) and memcpy_iov: contracts written (iov.c.in) but no back end finished within 25 min -> not listed
+    Proof('extract_front_continuous', 'iov.c', 'h_extract_front_continuous', kind='L', min_obligations=10, **CV),
+    Proof('extract_back_continuous', 'iov.c', 'h_extract_back_continuous', kind='L', min_obligations=10, **CV),
+    Proof('lemma/pre_mono', 'iov.c', 'lemma_pre_mono', kind='L', min_obligations=3, **CV),
 ]
-NATIVES = []
+NATIVES = [Native('native', 'native.cpp', args_quick=[300000], args_thorough=[20000000], timeout=1800, link_photon=True)]
+REPLAY = 'native'
 TRUSTED = ['cbmc 6.11.0', 'lowering rules of specs/C14/spec.py']
 NOT_DECIDED = []
 ASSUMPTIONS = []
